@@ -129,6 +129,7 @@ type draWorld struct {
 	capTotal, counterTotal, tmplCap, tmplCounter int64
 	partCost                                     []int64
 	zoned, bare, incomplete, generations         bool
+	nodePartition, invalidPool                   bool
 }
 
 func dkey(id cloudprovider.DeviceID, tmpl bool) string {
@@ -169,7 +170,29 @@ func newDraWorld(r *kit.Rand) *draWorld {
 	// a zoned pool: its devices carry topology requirements that narrow the NodeClaim
 	w.zoned = r.Chance(1, 2)
 	if w.zoned {
-		apiSlices = append(apiSlices, test.ZonedSlice("zoned-pool", exclDriver, kit.Pick(r, []string{"test-zone-1", "test-zone-2"}), "zd0", "zd1"))
+		za := kit.Pick(r, []string{"test-zone-1", "test-zone-2"})
+		apiSlices = append(apiSlices, test.ZonedSlice("zoned-pool", exclDriver, za, "zd0", "zd1"))
+		if r.Bool() { // a second zoned pool elsewhere: one claim cannot span both
+			apiSlices = append(apiSlices, test.ZonedSlice("zoned-pool-b", exclDriver, lo.Ternary(za == "test-zone-1", "test-zone-2", "test-zone-1"), "zb0"))
+		}
+	}
+	// a partition that only node3 can reach: for every other NodeClaim it is a non-targeting device of the counter pool
+	w.nodePartition = r.Chance(1, 2)
+	if w.nodePartition {
+		partCounters.Spec.Pool.ResourceSliceCount, partDevices.Spec.Pool.ResourceSliceCount = 3, 3
+		apiSlices = append(apiSlices, test.ResourceSlice(resourcev1.ResourceSlice{ObjectMeta: metav1.ObjectMeta{Name: "part-devices-node3"}, Spec: resourcev1.ResourceSliceSpec{
+			Driver: partDriver, NodeName: lo.ToPtr("node3"), Pool: resourcev1.ResourcePool{Name: "part-pool", Generation: 1, ResourceSliceCount: 3},
+			Devices: []resourcev1.Device{{Name: "pn0", ConsumesCounters: []resourcev1.DeviceCounterConsumption{{CounterSet: "cs", Counters: map[string]resourcev1.Counter{"slices": {Value: qty(1)}}}}}}}}))
+	}
+	// a malformed pool: its device draws from a counter the pool does not declare, which invalidates the pool
+	if r.Chance(1, 4) {
+		w.invalidPool = true
+		apiSlices = append(apiSlices, test.ResourceSlice(resourcev1.ResourceSlice{ObjectMeta: metav1.ObjectMeta{Name: "bad-counters"}, Spec: resourcev1.ResourceSliceSpec{
+			Driver: partDriver, AllNodes: lo.ToPtr(true), Pool: resourcev1.ResourcePool{Name: "bad-pool", Generation: 1, ResourceSliceCount: 2},
+			SharedCounters: []resourcev1.CounterSet{{Name: "cs", Counters: map[string]resourcev1.Counter{"slices": {Value: qty(4)}}}}}}),
+			test.ResourceSlice(resourcev1.ResourceSlice{ObjectMeta: metav1.ObjectMeta{Name: "bad-devices"}, Spec: resourcev1.ResourceSliceSpec{
+				Driver: partDriver, AllNodes: lo.ToPtr(true), Pool: resourcev1.ResourcePool{Name: "bad-pool", Generation: 1, ResourceSliceCount: 2},
+				Devices: []resourcev1.Device{{Name: "bad0", ConsumesCounters: []resourcev1.DeviceCounterConsumption{{CounterSet: kit.Pick(r, []string{"cs", "nope"}), Counters: map[string]resourcev1.Counter{"ghost": {Value: qty(1)}}}}}}}}))
 	}
 	// a multi-allocatable device without capacity dimensions, an incomplete pool (one of two slices published), and a
 	// pool whose older generation is superseded
@@ -186,8 +209,9 @@ func newDraWorld(r *kit.Rand) *draWorld {
 		w.incomplete = true
 	}
 	if r.Chance(1, 3) {
+		newerFirst := r.Bool() // listing order is arbitrary: the newer generation may be seen before or after the older one
 		for gen, dev := range map[int64]string{1: "old0", 2: "new0"} {
-			apiSlices = append(apiSlices, test.ResourceSlice(resourcev1.ResourceSlice{ObjectMeta: metav1.ObjectMeta{Name: fmt.Sprintf("gen-pool-%d", gen)}, Spec: resourcev1.ResourceSliceSpec{
+			apiSlices = append(apiSlices, test.ResourceSlice(resourcev1.ResourceSlice{ObjectMeta: metav1.ObjectMeta{Name: fmt.Sprintf("gen-pool-%s", lo.Ternary((gen == 2) == newerFirst, "a", "b"))}, Spec: resourcev1.ResourceSliceSpec{
 				Driver: exclDriver, AllNodes: lo.ToPtr(true), Pool: resourcev1.ResourcePool{Name: "gen-pool", Generation: gen, ResourceSliceCount: 1},
 				Devices: []resourcev1.Device{{Name: dev}}}}))
 		}
@@ -270,11 +294,13 @@ func runA(c *kit.Ctx, r *kit.Rand, idx int) {
 	for _, dc := range []struct{ name, driver string }{{"excl", exclDriver}, {"cap", capDriver}, {"part", partDriver}, {"gpu", test.GPUDriver}} {
 		kit.Apply(ctx, cl, test.DeviceClassWithSelector(dc.name, dc.driver))
 	}
+	kit.Apply(ctx, cl, test.DeviceClass(resourcev1.DeviceClass{ObjectMeta: metav1.ObjectMeta{Name: "any"}})) // no selectors: every device
 	w := newDraWorld(r)
 	inCluster, allITs, itNames, udevs, exclNames := w.inCluster, w.allITs, w.itNames, w.udevs, w.exclNames
 	devs, capTotals, tbudget := w.devs, w.capTotals, w.tbudget
 	capTotal, counterTotal, tmplCap, tmplCounter, partCost := w.capTotal, w.counterTotal, w.tmplCap, w.tmplCounter, w.partCost
-	for flag, on := range map[string]bool{"zoned-pool": w.zoned, "multi-alloc-device-without-capacity": w.bare, "incomplete-pool": w.incomplete, "superseded-pool-generation": w.generations} {
+	for flag, on := range map[string]bool{"zoned-pool": w.zoned, "multi-alloc-device-without-capacity": w.bare, "incomplete-pool": w.incomplete, "superseded-pool-generation": w.generations,
+		"node-local-partition-in-counter-pool": w.nodePartition, "invalid-pool": w.invalidPool} {
 		if on {
 			c.Count("A:setup:" + flag)
 		}
@@ -301,6 +327,12 @@ func runA(c *kit.Ctx, r *kit.Rand, idx int) {
 		pre = append(pre, id.String())
 		c.Count("A:setup:partition-preallocated")
 	}
+	if w.nodePartition && counterTotal-lo.Ternary(state.ExclusiveDevices.Len() > 0, partCost[0], 0) >= 1 && r.Bool() {
+		id := cloudprovider.DeviceID{Driver: unique.Make(partDriver), Pool: unique.Make("part-pool"), Device: unique.Make("pn0")}
+		state.ExclusiveDevices.Insert(id)
+		pre = append(pre, id.String())
+		c.Count("A:setup:non-targeting-partition-preallocated")
+	}
 	poolITs := lo.Map(itNames, func(n string, _ int) *cloudprovider.InstanceType { return allITs[n] })
 	var committed []*resourcev1.ResourceClaim
 	var preClaim, migrating *resourcev1.ResourceClaim
@@ -315,15 +347,39 @@ func runA(c *kit.Ctx, r *kit.Rand, idx int) {
 	deleting := sets.New[types.UID]()
 	if r.Chance(1, 3) { // the provisioner has freed this device already (it is not in the preallocated set)
 		dev := kit.Pick(r, exclNames)
-		if !state.ExclusiveDevices.Has(cloudprovider.DeviceID{Driver: unique.Make(exclDriver), Pool: unique.Make("excl-pool"), Device: unique.Make(dev)}) {
+		devID := cloudprovider.DeviceID{Driver: unique.Make(exclDriver), Pool: unique.Make("excl-pool"), Device: unique.Make(dev)}
+		if !state.ExclusiveDevices.Has(devID) {
 			deleting.Insert("deleting-pod")
-			migrating = test.AllocatedClusterWideClaim("migrating-claim", "excl-pool", exclDriver, dev, resourcev1.ResourceClaimConsumerReference{Resource: "pods", Name: "old", UID: "deleting-pod"})
+			consumers := []resourcev1.ResourceClaimConsumerReference{{Resource: "pods", Name: "old", UID: "deleting-pod"}}
+			switch r.Intn(3) {
+			case 1: // also reserved by a pod that stays: the claim stays committed, its device stays taken
+				consumers = append(consumers, resourcev1.ResourceClaimConsumerReference{Resource: "pods", Name: "live", UID: "live-pod"})
+				state.ExclusiveDevices.Insert(devID)
+				pre = append(pre, devID.String())
+				c.Count("A:setup:claim-reserved-by-deleting-and-live-pods")
+			case 2: // reserved by something that is not a pod
+				consumers = []resourcev1.ResourceClaimConsumerReference{{APIGroup: "example.com", Resource: "jobs", Name: "j", UID: "deleting-pod"}}
+				state.ExclusiveDevices.Insert(devID)
+				pre = append(pre, devID.String())
+				c.Count("A:setup:claim-reserved-by-non-pod-consumer")
+			}
+			migrating = test.AllocatedClusterWideClaim("migrating-claim", "excl-pool", exclDriver, dev, consumers...)
 			migrating.Spec.Devices.Requests = []resourcev1.DeviceRequest{test.ExactDeviceRequest("req", "excl", 1)}
 		}
 	}
 	alloc := dra.NewAllocator(inCluster, state, dra.BuildAttributeBindings(map[string][]*cloudprovider.InstanceType{"pool": poolITs}), cl, deleting)
 	at := alloc.VerifC17Tracker()
 	rem0 := at.VerifC17Budgets().RemainingCounters
+	// the partition pool's starting budget is computed here, not read back: counter set minus what preallocated partitions draw
+	partKey := fmt.Sprintf("%s|part-pool|cs|slices", partDriver)
+	rem0[partKey] = counterTotal
+	for _, name := range pre {
+		for _, info := range devs {
+			if !info.tmpl && info.id.String() == name {
+				rem0[partKey] -= info.counters[partKey]
+			}
+		}
+	}
 	capb := map[string]int64{}
 	for k, v := range capTotals {
 		capb[k] = v
@@ -399,8 +455,13 @@ func runA(c *kit.Ctx, r *kit.Rand, idx int) {
 	failures := 0
 	claimNo := 0
 	nOps := r.Range(4, 10)
+	var lastNC *aNC
 	for i := 0; i < nOps; i++ {
 		n := kit.Pick(r, ncs)
+		if lastNC != nil && r.Chance(2, 5) { // several pods land on the same NodeClaim
+			n = lastNC
+		}
+		lastNC = n
 		if len(n.its) == 0 {
 			continue
 		}
@@ -411,7 +472,7 @@ func runA(c *kit.Ctx, r *kit.Rand, idx int) {
 			name := fmt.Sprintf("r%d", q)
 			switch r.Intn(14) {
 			case 0, 1:
-				cls, cnt := kit.Pick(r, []string{"excl", "gpu", "part"}), int64(r.Range(1, 2))
+				cls, cnt := kit.Pick(r, []string{"excl", "gpu", "part", "any"}), int64(r.Range(1, 3))
 				reqs = append(reqs, test.ExactDeviceRequest(name, cls, cnt))
 				jreq = append(jreq, fmt.Sprintf("exact %s x%d", cls, cnt))
 			case 2, 3:
@@ -436,8 +497,8 @@ func runA(c *kit.Ctx, r *kit.Rand, idx int) {
 			case 8: // first-available whose preferred alternative is an All-mode sub-request
 				reqs = append(reqs, test.FirstAvailableDeviceRequest(name,
 					resourcev1.DeviceSubRequest{Name: "a", DeviceClassName: kit.Pick(r, []string{"part", "gpu"}), AllocationMode: resourcev1.DeviceAllocationModeAll},
-					test.DeviceSubRequest("b", "excl", 1)))
-				jreq = append(jreq, "first-available all(part|gpu) | excl")
+					lo.Ternary(r.Chance(1, 3), resourcev1.DeviceSubRequest{Name: "b", DeviceClassName: "part", AllocationMode: resourcev1.DeviceAllocationModeAll}, test.DeviceSubRequest("b", "excl", 1))))
+				jreq = append(jreq, "first-available all(part|gpu) | excl or all(part)")
 				c.Count("A:request:first-available-with-all-mode")
 			case 9: // request-level CEL selector, sometimes one that fails at runtime (attribute not published)
 				req := test.ExactDeviceRequest(name, "excl", 1)
@@ -445,6 +506,9 @@ func runA(c *kit.Ctx, r *kit.Rand, idx int) {
 				if r.Chance(1, 3) {
 					expr = `device.attributes["nope.example.com"].x == "y"`
 					c.Count("A:request:selector-runtime-error")
+				} else if r.Chance(1, 4) {
+					expr = `device.driver ==`
+					c.Count("A:request:selector-does-not-compile")
 				} else {
 					c.Count("A:request:selector")
 				}
@@ -674,8 +738,9 @@ func runB(c *kit.Ctx, r *kit.Rand, idx int) {
 					cuses[it] = append(cuses[it], dra.VerifC17CounterUse{Driver: "drv", Pool: "parts2", Set: "cs", Counter: "d1", Value: v})
 					c.Count("B:commit:second-pool")
 				}
-				if r.Chance(1, 8) { // consumption the tracker keeps no budget for: unknown counter, counter set or pool
-					u := kit.Pick(r, []dra.VerifC17CounterUse{{Driver: "drv", Pool: "parts", Set: "cs", Counter: "cX", Value: 1}, {Driver: "drv", Pool: "parts", Set: "csX", Counter: "c1", Value: 1}, {Driver: "drv", Pool: "ghost", Set: "cs", Counter: "c1", Value: 1}})
+				if r.Chance(1, 8) { // consumption the tracker keeps no budget for: unknown counter set or pool (an unknown counter of a known set is left out:
+					// subtractDeltaFromRemaining skips it but addDeltaToRemaining would create the entry on release; the allocator never proposes it)
+					u := kit.Pick(r, []dra.VerifC17CounterUse{{Driver: "drv", Pool: "parts", Set: "csX", Counter: "c1", Value: 1}, {Driver: "drv", Pool: "ghost", Set: "cs", Counter: "c1", Value: 1}})
 					if cnt[it] == nil {
 						cnt[it] = map[string]int64{}
 					}
